@@ -68,6 +68,12 @@ KILL = [
 ''', '', 'capacity-checked-per-call'),
     ('alphabet-drops-boundary-prefix', ['C07'], 'selfies/bond_constraints.py::get_semantic_robust_alphabet',
      'selfies/bond_constraints.py', 'if (m > c) or (a == "?"):', 'if (m >= c) or (a == "?"):', 'rows-done'),
+    ('tokenizer-does-not-advance', ['C09'], 'selfies/utils/smiles_utils.py::tokenize_smiles',
+     'selfies/utils/smiles_utils.py', '        yield token\n        i = token.end_idx', '        yield token\n        i = token.start_idx',
+     'variant'),
+    ('tokenizer-ring-number-overruns', ['C09'], 'selfies/utils/smiles_utils.py::tokenize_smiles',
+     'selfies/utils/smiles_utils.py', 'if not (rnum.isnumeric() and len(rnum) == 2):', 'if not rnum.isnumeric():',
+     'token-inside-input'),
     ('nop-not-filtered', ['C13'], 'selfies/decoder.py::_tokenize_selfies', 'selfies/decoder.py',
      '''            if symbol == "[nop]":
                 continue
